@@ -67,6 +67,9 @@ def programs(t):
         lines.append('P(EU<%d>, 0, EU<%d>, -3, 2)' % (d, min(d, 31)))
         if d <= 40:
             lines.append('PIR(EU<%d>, 0, 2, i64)' % d)
+    # one-digit signed elastic reps (the values -1, 0, 1): x * -1, and alignment by an elastic multiply
+    for (l, r, le, re) in [('ES<1>', 'ES<8>', 0, -2), ('ES<8>', 'ES<1>', -3, 0), ('ES<1>', 'ES<1>', 2, 0), ('ES<1>', 'i8', -1, -4), ('ES<31>', 'ES<1>', 0, 3)]:
+        lines.append('P(%s, %d, %s, %d, 2)' % (l, le, r, re))
     for (d, le, re) in [(30, 0, -71), (20, -67, 0), (31, 0, -65), (40, -64, 0)] + ([(7, 0, -100), (50, 3, -70)] if t else []):
         lines.append('P(ES<%d>, %d, ES<%d>, %d, 2)' % (d, le, d, re))
     return lines
